@@ -80,6 +80,10 @@ impl SourceCfg {
             3
         }
     }
+    /// A cyclic plan without any delivering step would make every (correct) retry loop spin forever.
+    pub fn live(&self) -> bool {
+        !self.cycle || self.steps.is_empty() || self.steps.iter().any(|s| matches!(s, Step::Deliver(_) | Step::Fill))
+    }
     pub fn one_shot() -> Self {
         SourceCfg {
             steps: vec![],
@@ -297,7 +301,7 @@ impl Read for SimSource {
             CallRes::Lie => u64::MAX - 3,
             CallRes::Panic => u64::MAX - 4,
         });
-        if st.keep_log {
+        if st.keep_log && !st.budget_exceeded {
             st.log.push((offered, res, before));
         }
         if res == CallRes::Panic {
